@@ -31,6 +31,7 @@ type chainFam struct {
 	script []sdk.Msg
 	files  []*tfile
 	halted bool
+	dead   string // non-empty: the application panicked while starting (InitChain / first block)
 	types  []string
 	// ledger mode (spec/Ledger.tla): project class balances and obligations after every step
 	ledger  bool
@@ -69,7 +70,21 @@ func (f *chainFam) Reset() M {
 	if f.c != nil {
 		f.c.Close()
 	}
-	f.c = chain.New(smallParams)
+	// an application that cannot process its own genesis and first block is a halted chain (C05) before any transaction
+	f.dead = ""
+	func() {
+		defer func() {
+			if p := recover(); p != nil {
+				f.dead = fmt.Sprint(p)
+			}
+		}()
+		f.c = chain.New(smallParams)
+	}()
+	if f.dead != "" {
+		f.c = nil
+		f.halted = false
+		return M{"big": true}
+	}
 	f.c.Step = 24 * 3600 * 1e9
 	f.halted = false
 	c := f.c
@@ -135,6 +150,9 @@ func (f *chainFam) Reset() M {
 func (f *chainFam) Project() M {
 	if !f.ledger {
 		return M{}
+	}
+	if f.c == nil {
+		return M{"big": true}
 	}
 	return f.lgProject(f.lgTake())
 }
@@ -251,6 +269,10 @@ func (f *chainFam) flow() sdk.Msg {
 func (f *chainFam) Apply(st M) M {
 	if f.halted {
 		return nil
+	}
+	if f.dead != "" {
+		f.halted = true
+		return M{"a": "block", "h": int64(1), "panic": true, "hash": "", "ev": "", "ok": false, "x": M{"panic": "application start: " + f.dead}}
 	}
 	switch gets(st, "a") {
 	case "script":
